@@ -773,6 +773,6 @@ Proof.
   { destruct ll eqn:E; [contradiction|]. destruct Hk as [Hk | []]. inversion Hk. reflexivity. }
   subst l. unfold ll in He. apply in_flat_map in He. destruct He as [[i r] [Hin Hx]].
   apply in_combine_l in Hin. apply seqN_in in Hin. simpl in Hx.
-  destruct (existsb (N.eqb k0) (r_chains r)); [|contradiction].
+  destruct (r_ok r && existsb (N.eqb k0) (r_chains r)); [|contradiction].
   destruct Hx as [<- | []]. simpl. lia.
 Qed.
